@@ -127,6 +127,11 @@ def refusal_constraints(ctx: Ctx, fi: FuncInfo, accept_return: Iterable[str] = (
 
 
 def has(cons: list[Constraint], subject: str | None, op: str, value: Any = UNKNOWN, subject_contains: str | None = None) -> Constraint | None:
+    # the same comparison written the other way round: `dust > sats` for `sats < dust`
+    if subject is not None and isinstance(value, str) and op in FLIP:
+        for c in cons:
+            if c.subject == value and c.op == FLIP[op] and c.value_text.split(" |")[0] == subject:
+                return c
     for c in cons:
         if subject is not None and c.subject != subject:
             continue
